@@ -196,15 +196,27 @@ def trio_token(prog: Program, cls) -> str:
 
 # ---------------------------------------------------------------------- daemon entry
 def load_services(prog: Program):
-    """the coroutine function `run` adopts as the configuration loader"""
+    """the coroutine function `run` adopts as the configuration loader (directly or bound by functools.partial)"""
 
     def find():
         run = prog.func("cobald.daemon.core.main:run")
+        partials = {}
         for n in ast.walk(run.node):
-            if isinstance(n, ast.Call) and isinstance(n.func, ast.Attribute) and n.func.attr == "adopt" and n.args and isinstance(n.args[0], ast.Name):
-                r = prog.resolve(run.module, n.args[0])
-                if r in prog.functions:
-                    return prog.functions[r]
+            if isinstance(n, ast.Assign) and isinstance(n.value, ast.Call) and prog.resolve(run.module, n.value.func) == "ext:functools.partial" and n.value.args:
+                for t in n.targets:
+                    if isinstance(t, ast.Name):
+                        partials[t.id] = n.value.args[0]
+        for n in ast.walk(run.node):
+            if isinstance(n, ast.Call) and isinstance(n.func, ast.Attribute) and n.func.attr == "adopt" and n.args:
+                a = n.args[0]
+                if isinstance(a, ast.Call) and prog.resolve(run.module, a.func) == "ext:functools.partial" and a.args:
+                    a = a.args[0]
+                if isinstance(a, ast.Name) and a.id in partials:
+                    a = partials[a.id]
+                if isinstance(a, ast.Name):
+                    r = prog.resolve(run.module, a)
+                    if r in prog.functions:
+                        return prog.functions[r]
         raise Undecided("run() adopts no loader function", run.node)
 
     return _memo(prog, "load_services", find)
